@@ -1,5 +1,6 @@
 CONSTANTS Depth = 3
           Record = TRUE
           Wide = FALSE
+          Full = FALSE
 INIT InitGen
 NEXT NextGen
